@@ -76,3 +76,17 @@ package reghttp
 //@   in ~/internal/reghttp
 //@   infunc checkRedirect
 //@   requires not-in-clear-text-to-a-tls-host: req.URL.Scheme == "https" || caller.ch.config.TLS == config.TLSDisabled
+// (5) every attempt carries its own header map: the only header map ever installed into an
+//     outgoing request by this package is a clone made at that very point (so Authorization
+//     written for one host can never be seen by the attempt against another host); otherwise the
+//     request keeps the map http.NewRequest created for it.
+//@ ghost $hdrClone http.Header
+//@ func (*Resp).next$1
+//@   prop C11
+//@   opaque UpdateRequest, HandleResponse, AddScope
+//@   on-call Clone: $hdrClone = result
+//@ fieldwrite net/http.Request.Header
+//@   prop C11
+//@   name Request.Header/reghttp
+//@   in ~/internal/reghttp
+//@   requires fresh-clone-per-attempt: v == $hdrClone && v != caller.req.Headers
